@@ -69,19 +69,86 @@ def receiver_side(node, fn_node):
     return norm.literal_polarity(node, fn_node, is_receiver_test)
 
 
+def _resolution_class(repo, mod, fi, expr):
+    e = expr.func if isinstance(expr, ast.Call) else expr
+    d = repo.resolve(mod, e, model.scope_locals(fi))
+    if d and d.startswith(EXC + '.') and d.rsplit('.', 1)[1] in RESOLUTION:
+        return d.rsplit('.', 1)[1]
+    return None
+
+
+def error_factories(repo, mod):
+    """Module-level functions whose returns construct resolution errors
+    (`def _ambiguity_error(name, receiver): ... return Ambiguous...`):
+    {factory key: [(return node, class name)]}."""
+    out = {}
+    for fi in mod.functions.values():
+        rets = []
+        for st in model.walk_shallow(fi.node):
+            if isinstance(st, ast.Return) and st.value is not None:
+                v = st.value
+                leaves = [v]
+                if isinstance(v, ast.IfExp):
+                    leaves = [v.body, v.orelse]
+                for leaf in leaves:
+                    c = _resolution_class(repo, mod, fi, leaf)
+                    if c:
+                        rets.append((leaf if leaf is not v else st, c))
+        if rets:
+            out[fi.key] = (fi, rets)
+    return out
+
+
 def resolution_raises(repo, mod):
-    """(FuncInfo, Raise node, class name) for every raise of one of the six
-    resolution errors in the runner."""
+    """(FuncInfo, node, class name, [(FuncInfo, raise statement)]) for every
+    place a resolution error is produced in the runner: a `raise X(...)`,
+    or the `return X(...)` of an error factory together with the
+    `raise factory(...)` statements that use it."""
     out = []
+    facts = error_factories(repo, mod)
     for fi in mod.functions.values():
         for st in model.walk_shallow(fi.node):
             if not isinstance(st, ast.Raise) or st.exc is None:
                 continue
-            e = st.exc.func if isinstance(st.exc, ast.Call) else st.exc
-            d = repo.resolve(mod, e, model.scope_locals(fi))
-            if d and d.startswith(EXC + '.') and \
-                    d.rsplit('.', 1)[1] in RESOLUTION:
-                out.append((fi, st, d.rsplit('.', 1)[1]))
+            c = _resolution_class(repo, mod, fi, st.exc)
+            if c:
+                out.append((fi, st, c, [(fi, st)]))
+    for key, (ffi, rets) in facts.items():
+        users = []
+        for fi in mod.functions.values():
+            for st in model.walk_shallow(fi.node):
+                if isinstance(st, ast.Raise) and isinstance(
+                        st.exc, ast.Call):
+                    d = repo.resolve(mod, st.exc.func,
+                                     model.scope_locals(fi))
+                    t = repo.lookup(d) if d else None
+                    if t is ffi:
+                        users.append((fi, st))
+        for node, c in rets:
+            out.append((ffi, node, c, users))
+    return out
+
+
+def raises_ambiguity(repo, mod, fi):
+    """Statements / calls in fi that raise an Ambiguous* error: direct
+    raises, raises of an error factory's result, calls of local
+    never-returning helpers that do."""
+    out = []
+    sites = resolution_raises(repo, mod)
+    for f2, node, cn, users in sites:
+        if not cn.startswith('Ambiguous'):
+            continue
+        for uf, ust in users:
+            if uf is fi and ust not in out:
+                out.append(ust)
+    for c in model.calls_in(fi.node, shallow=True):
+        if isinstance(c.func, ast.Name):
+            h = mod.functions.get(fi.qualname + '.' + c.func.id)
+            if h is not None and any(
+                    cn.startswith('Ambiguous') and any(
+                        uf is h for uf, _ in users)
+                    for f2, node, cn, users in sites):
+                out.append(c)
     return out
 
 
@@ -101,7 +168,7 @@ def check_error_kinds(repo, rep):
             raise AnalysisError('exceptions.%s is no longer a %s' % (
                 name, base))
     sites = resolution_raises(repo, mod)
-    for fi, st, cname in sites:
+    for fi, st, cname, users in sites:
         kind, stage = RESOLUTION[cname]
         site = '%s/raise[%s]' % (fi.key, cname)
         top = fi
@@ -126,7 +193,11 @@ def check_error_kinds(repo, rep):
     # R05b: stages
     call = mod.func('call')
     choose = mod.func('choose_overload')
-    for fi, st, cname in sites:
+    flat = []
+    for fi, st, cname, users in sites:
+        for uf, ust in users:
+            flat.append((uf, ust, cname))
+    for fi, st, cname in flat:
         kind, stage = RESOLUTION[cname]
         top = fi
         while top.parent_func is not None:
@@ -607,18 +678,7 @@ def check_lazy_agreement_symmetric(repo, rep, rule='R05f'):
             return None      # an agreed set may be empty: truthiness open
         return None
     # the statements that raise the ambiguity error
-    raisers = []
-    for c in model.calls_in(fi.node, shallow=True):
-        if isinstance(c.func, ast.Name):
-            h = mod.functions.get(fi.qualname + '.' + c.func.id)
-            if h is not None and any(
-                    cn.startswith('Ambiguous')
-                    for f2, st, cn in resolution_raises(repo, mod)
-                    if f2 is h):
-                raisers.append(c)
-    for st in model.walk_shallow(fi.node):
-        if isinstance(st, ast.Raise) and 'Ambiguous' in model.norm(st):
-            raisers.append(st)
+    raisers = raises_ambiguity(repo, mod, fi)
     ok = False
     why = 'no ambiguity error is tied to the comparison'
     for r in raisers:
